@@ -31,6 +31,9 @@ def obsBlob (ns data : Bytes) (sg : Option Bytes) (app : Nat) : SplitObs :=
         (match reconstruct shares app with
          | .ok (b', rest) => if rest.isEmpty then some (b'.ns, b'.data, b'.signer) else none
          | .error _ => none)
+        (match reconstruct shares app with
+         | .ok (b', _) => some b'.shareVersion
+         | .error _ => none)
 
 /-- **splitting into shares and reconstructing yields the identical blob; the shares are exactly
     those of the share format; their number is `sharesNeeded`; the reported share count equals the
